@@ -298,6 +298,10 @@ macro_rules! family {
             pub fn serialize_with(&self, o: &SerOpts) -> Result<String, SeError> {
                 match self { $( Val::$variant(v) => ser(v, o), )* }
             }
+            /// hand the concrete value to `f` (used to serialize it into other kinds of sinks)
+            pub fn serialize_io(&self, f: &mut dyn FnMut(&dyn crate::props::c13::erased::Ser) -> Result<(), String>) -> Result<(), String> {
+                match self { $( Val::$variant(v) => f(v), )* }
+            }
         }
         impl Ty {
             pub fn from_str(self, xml: &str) -> Result<Val, DeError> {
